@@ -51,13 +51,18 @@ def sh(cmd, cwd=None, timeout=None, env=None):
 
 
 class Lock:
-    def __init__(self, name):
+    """advisory file lock; shared=True takes a read lock (several evaluators at once, no builder)"""
+
+    def __init__(self, name, shared=False, enabled=True):
         os.makedirs(WORK, exist_ok=True)
         self.path = os.path.join(WORK, "." + name + ".lock")
+        self.shared = shared
+        self.enabled = enabled
 
     def __enter__(self):
-        self.f = open(self.path, "w")
-        fcntl.flock(self.f, fcntl.LOCK_EX)
+        self.f = open(self.path, "a")
+        if self.enabled:
+            fcntl.flock(self.f, fcntl.LOCK_SH if self.shared else fcntl.LOCK_EX)
         return self
 
     def __exit__(self, *a):
@@ -80,6 +85,11 @@ def load_known():
 
 # ---------------------------------------------------------------- translate + prove
 def translate():
+    with Lock("coq"):
+        return translate_locked()
+
+
+def translate_locked():
     rc, out, _ = sh([sys.executable, os.path.join(ROOT, "tools", "gen_constants.py")], timeout=120)
     if rc != 0:
         return None, out
@@ -134,12 +144,30 @@ def forbidden_grep():
     return bad
 
 
-def build_coq(cfg, clean=False):
+SHARED_COQ = COQ
+
+
+def private_tree(dst):
+    """thorough tier: a from-scratch build in a private copy of the sources (the shared tree is never
+    cleaned, so checks running at the same time keep their compiled files)"""
+    global COQ
+    with Lock("coq", shared=True):
+        for sub in ("Gen", "Model", "Proofs", "Props", "Run"):
+            os.makedirs(os.path.join(dst, sub), exist_ok=True)
+            for f in glob.glob(os.path.join(SHARED_COQ, sub, "*.v")):
+                shutil.copy(f, os.path.join(dst, sub, os.path.basename(f)))
+        shutil.copy(os.path.join(SHARED_COQ, "gen_project.sh"), os.path.join(dst, "gen_project.sh"))
+    COQ = dst
+
+
+def coq_is_shared():
+    return COQ == SHARED_COQ
+
+
+def build_coq(cfg):
     targets = [cfg["coq_target"], "Run/%s.vo" % cfg["run_module"]]
-    with Lock("coq"):
+    with Lock("coq", enabled=coq_is_shared()):
         sh(["sh", os.path.join(COQ, "gen_project.sh")], timeout=60)
-        if clean:
-            sh(["make", "-C", COQ, "clean"], timeout=120)
         # model/run first, so that the evaluator is available even when a proof breaks
         rc_run, out_run, t_run = sh(["make", "-C", COQ, "-j%d" % NPROC, targets[1]], timeout=1500)
         rc, out, t = sh(["make", "-C", COQ, "-j%d" % NPROC, "-k", targets[0]], timeout=1800)
@@ -159,9 +187,9 @@ def coq_error_summary(out):
     return " | ".join(tail)[:600]
 
 
-def audit(cfg, prop):
+def audit(cfg, prop, outdir):
     """Print Assumptions of every property theorem, freshly, on every run."""
-    d = os.path.join(WORK, prop)
+    d = outdir
     os.makedirs(d, exist_ok=True)
     mod = os.path.splitext(os.path.basename(cfg["coq_target"]))[0]
     lines = ["From Srtla Require Import %s." % mod]
@@ -172,7 +200,8 @@ def audit(cfg, prop):
     path = os.path.join(d, "audit_%s.v" % prop)
     with open(path, "w") as f:
         f.write("\n".join(lines) + "\n")
-    rc, out, t = sh(["coqc", "-noglob", "-Q", COQ, "Srtla", path], cwd=d, timeout=600)
+    with Lock("coq", shared=True, enabled=coq_is_shared()):
+        rc, out, t = sh(["coqc", "-noglob", "-Q", COQ, "Srtla", path], cwd=d, timeout=600)
     res = {}
     for th in cfg["theorems"]:
         m = re.search(r"@@BEGIN %s\n(.*?)@@END %s" % (re.escape(th), re.escape(th)), out, re.S)
@@ -253,7 +282,7 @@ def evaluate(outdir):
     results = {}
     errors = []
     t0 = time.time()
-    with concurrent.futures.ThreadPoolExecutor(max_workers=NPROC) as ex:
+    with Lock("coq", shared=True, enabled=coq_is_shared()), concurrent.futures.ThreadPoolExecutor(max_workers=NPROC) as ex:
         for path, vals, out, t in ex.map(eval_shard, shards):
             name = os.path.basename(path)
             meta = next(s for s in summary["shards"] if s["file"] == name)
@@ -324,7 +353,16 @@ def main():
     t_start = time.time()
     cfg = load_cfg(prop)
     known = load_known()
-    outdir = os.path.join(WORK, prop)
+    # one scratch directory per run: quick and thorough runs of the same property may overlap
+    pdir = os.path.join(WORK, prop)
+    os.makedirs(pdir, exist_ok=True)
+    for old in os.listdir(pdir):
+        m = re.match(r"(?:quick|thorough)-(\d+)$", old)
+        stale = (m and not os.path.exists("/proc/%s" % m.group(1))) or (not m)
+        if stale:
+            q = os.path.join(pdir, old)
+            shutil.rmtree(q, ignore_errors=True) if os.path.isdir(q) else os.remove(q)
+    outdir = os.path.join(pdir, "%s-%d" % (tier, os.getpid()))
     os.makedirs(outdir, exist_ok=True)
     ev_path = os.path.join(ROOT, "evidence", prop + ".json")
     os.makedirs(os.path.dirname(ev_path), exist_ok=True)
@@ -352,7 +390,9 @@ def main():
     bad_words = forbidden_grep()
     if bad_words:
         broken.append("forbidden construct in development: " + "; ".join(bad_words[:5]))
-    b = build_coq(cfg, clean=(tier == "thorough" and os.environ.get("VERIF_NO_CLEAN") != "1"))
+    if tier == "thorough" and os.environ.get("VERIF_NO_CLEAN") != "1":
+        private_tree(os.path.join(outdir, "coq"))
+    b = build_coq(cfg)
     log("coq build: run_ok=%s props_ok=%s (%.0fs)" % (b["run_ok"], b["props_ok"], b["wall"]))
     failing_theorem = None
     if not b["props_ok"]:
@@ -371,7 +411,7 @@ def main():
         broken.append("leaf translator could not translate: " + "; ".join("%s (%s)" % (n, lf[n][:120]) for n in mine))
     audit_res = {}
     if b["props_ok"]:
-        rc, aout, audit_res = audit(cfg, prop)
+        rc, aout, audit_res = audit(cfg, prop, outdir)
         if rc != 0:
             broken.append("assumption audit failed: " + coq_error_summary(aout))
         probs = axioms_allowed(cfg, audit_res)
@@ -502,7 +542,7 @@ def main():
         "property_id": prop, "tier": tier, "seed": seed, "level": "proof",
         "coverage": {
             "obligations": len(theorems) + len(b.get("leaf", {})), "discharged": discharged + leaf_ok,
-            "checker_cmd": "make -C /verif/coq %s && coqc audit (Print Assumptions) && coqc work/%s/cases_*.v" % (cfg["coq_target"], prop),
+            "checker_cmd": "make -C /verif/coq %s && coqc audit (Print Assumptions) && coqc work/%s/<run>/cases_*.v" % (cfg["coq_target"], prop),
             "trusted_base": trusted,
             "theorems": theorems,
             "evaluations": summary.get("evaluations", 0),
@@ -527,8 +567,13 @@ def main():
         "wall_s": round(time.time() - t_start, 1),
         "violations": nviol,
     }
-    with open(ev_path, "w") as f:
+    with open(ev_path + ".tmp%d" % os.getpid(), "w") as f:
         json.dump(evidence, f, indent=1)
+    os.replace(ev_path + ".tmp%d" % os.getpid(), ev_path)
+    if not coq_is_shared():
+        shutil.rmtree(COQ, ignore_errors=True)
+    if not violations and os.environ.get("VERIF_KEEP_WORK") != "1":
+        shutil.rmtree(outdir, ignore_errors=True)
 
     seen = set()
     for k in known_hits:
